@@ -58,6 +58,7 @@ func newTunnel() (*endpoint, error) {
 	s.Handler = func(ev memsock.Event) {
 		switch ev.P.Service {
 		case spec.SvcConnReq:
+			// the same channel id is granted again after a reconnect
 			s.Deliver(&knxnet.ConnRes{Channel: ch, Control: knxnet.HostInfo{Protocol: knxnet.UDP4}})
 		case spec.SvcTunnelReq:
 			s.Deliver(&knxnet.TunnelRes{Channel: ev.P.Channel, SeqNumber: ev.P.Seq})
@@ -414,6 +415,24 @@ func run(rr *mon.Run) {
 						}
 					}
 				}
+			}
+		}
+		// a gateway-initiated disconnect and reconnect in the middle: group events
+		// must keep surfacing on the new connection (numbering restarts at 0)
+		if e.kind == "tunnel" && ok {
+			from := e.s.Len()
+			e.s.Deliver(&knxnet.DiscReq{Channel: e.channel})
+			if !e.s.WaitTx(spec.SvcConnReq, from, 1, 5*time.Second) {
+				r.Violate("inbound.no-reconnect", map[string]string{"client": e.kind}, nil, "[tunnel] no connect request after a disconnect request")
+				ok = false
+			}
+			time.Sleep(5 * time.Millisecond)
+			e.seq = 0
+			for i := 0; i < 4 && ok; i++ {
+				c := gen.LData(rng, spec.McLDataInd)
+				c.Ctrl2 |= 0x80
+				c.TPDU = spec.TPDU{Cmd: uint8(i % 3), Data: []byte{byte(i + 1), 0x66}}
+				ok = checkInbound(e, c, "group indication after a reconnect")
 			}
 		}
 		// random indications
